@@ -24,6 +24,8 @@ def parseOp? (s : String) : Option Op :=
   | ["nrollback"] => some .nrollback
   | ["close"] => some .close
   | ["expunge_all"] => some .expungeAll
+  | ["query", pe, _yp] => if pe == "1" then some (.query true) else if pe == "0" then some (.query false) else none
+  | ["refresh", o] => o.toNat?.map .refresh
   | _ => none
 
 def evName : Ev → String
@@ -79,9 +81,11 @@ def runOps : Sess → List Op → List String → List String
     let ((σ', e), ro) := step σ op
     let res := match e with
                | some e => "err:" ++ errName e
-               | none => match op with
-                         | .get _ | .merge _ => "ok:" ++ (match ro with | some o => toString o | none => "N")
-                         | _ => "ok"
+               | none => match op, ro with
+                         | .get _, some l | .merge _, some l =>
+                           "ok:" ++ (match l with | o :: _ => toString o | [] => "N")
+                         | .query _, some l => "ok:[" ++ ".".intercalate (l.map toString) ++ "]"
+                         | _, _ => "ok"
     let rec_ := showState σ' (σ'.log.drop n0) res q0
     if σ'.nondet then acc ++ [rec_ ++ "|nondet"]
     else if !imapOk σ' then acc ++ [rec_, "abstain"]
